@@ -90,12 +90,23 @@ def make_iso(rp, rl, rm, tunit, T, ads_props, mat_props, tag='', P=None, L=None,
     L = L0 if L is None else L
     B = BR if B is None else B
     df = pd.DataFrame({'pressure': P, 'loading': L, 'enthalpy': [5.0 - 0.1 * i for i in range(len(P))], 'note': [chr(97 + i % 26) for i in range(len(P))]}, index=index)
+    # a relative pressure has no unit: the constructor must deliver the same isotherm whether the unit is passed as None, not
+    # passed at all (a default is filled in and cleared) or passed as some pressure unit (cleared) -- the three spellings cycle
+    global _PU_STYLE
+    labels = dict(pressure_mode=rp[0], pressure_unit=rp[1], loading_basis=rl[0], loading_unit=rl[1],
+                  material_basis=rm[0], material_unit=rm[1], temperature_unit=tunit)
+    if rp[0] != 'absolute':
+        _PU_STYLE = (_PU_STYLE + 1) % 3
+        if _PU_STYLE == 1:
+            del labels['pressure_unit']
+        elif _PU_STYLE == 2:
+            labels['pressure_unit'] = ['bar', 'kPa', 'torr', 'Pa'][int(T * 1000) % 4]
     iso = pygaps.PointIsotherm(isotherm_data=df, pressure_key='pressure', loading_key='loading', branch=(B if isinstance(B, str) else list(B)),
-                               material=m, adsorbate=a, temperature=T,
-                               pressure_mode=rp[0], pressure_unit=rp[1], loading_basis=rl[0], loading_unit=rl[1],
-                               material_basis=rm[0], material_unit=rm[1], temperature_unit=tunit,
-                               operator='verif', batch=7)
+                               material=m, adsorbate=a, temperature=T, operator='verif', batch=7, **labels)
     return iso
+
+
+_PU_STYLE = 0
 
 
 def ads_table(ads, temps):
